@@ -239,8 +239,11 @@ CLAIMED['C06'] = dict(
          'that tree and consumes every token, with the fuel the model gives itself (need_le); same inside braces for predicates; and at property '
          'and file level (Props/C06c: parse_property_toks_roundtrip, parse_file_toks_roundtrip - annotations, scopes, patterns, event '
          'disjunctions, time bounds; k printed properties are read back as exactly those k). Proved by mutual '
-         'structural induction with one lemma per grammar level. The lexer is outside the theorem: on every generated text the driver checks '
-         'that the parser output is printable and that lexing the printed form gives Raw.toks (rtcheck). Lean model of every __str__ '
+         'structural induction with one lemma per grammar level. Text level (Props/C06d-h), scanner included: print_parse_roundtrip_dec - '
+         'parseExpression (e.print) = ok e on strings for every e built from a printable tree whose literal tokens and variable names are '
+         'complete tokens (Raw.lexOkB, decidable); pred_print_parse_roundtrip for predicates; via lexR (scanner model reads Raw.chars as '
+         'Raw.toks), scanNumber_local/scanString_local, build_erase, print_chars. On every generated text the driver evaluates the '
+         'hypotheses (printable, lexOkB) and that lexing the printed form gives Raw.toks (rtcheck); at property level the scanner is tied by that check only. Lean model of every __str__ '
          '(expressions, predicates, events with flat disjunctions, scopes, patterns with ms/s time bounds, properties, specifications) compared '
          'with the implementation; the round trip (str -> parse -> equal AST, equal hash, stable second print, injectivity of printing) is also '
          'decided on the implementation for every node kind, widths up to 4 and 27 time bounds over 18 orders of magnitude. Two defects found '
